@@ -183,3 +183,7 @@ Fixpoint msg_enc_utf8_ok (slow : bool) (S : schema) (tid : nat) (v : value) {str
   | VMsg fs _ => forallb (msg_utf8_chunk slow (msg_enc_utf8_ok slow S) (nth tid S [])) fs
   | _ => true
   end.
+
+(* MarshalAppend: the encoding is appended to the caller's bytes *)
+Definition msg_marshal_append (prefix : list byte) (S : schema) (tid : nat) (v : value) : list byte :=
+  prefix ++ msg_encode S tid v.
